@@ -78,6 +78,8 @@ pub fn guarded<R>(f: impl FnOnce() -> R) -> Result<R, (String, String)> {
 // Component vocabulary
 // ------------------------------------------------------------------------------------------
 
+/// Entity slot reserved for the structural probe spawned at the end of closure (C03).
+pub const PROBE_SLOT: u8 = 5;
 pub const MAGIC: u8 = 0xA5;
 pub const MAGIC_END: u8 = 0x5A;
 pub type Val = [u8; 5];
@@ -658,7 +660,7 @@ impl Sim {
             clients: Vec::new(),
             server_channels,
             client_channels,
-            ents: vec![None; 4],
+            ents: vec![None; 6],
             ver: 0,
             vis_rec: BTreeMap::new(),
             snaps: BTreeMap::new(),
@@ -814,8 +816,9 @@ impl Sim {
             Op::Spawn(s, _) => self.alive(s).is_none(),
             // Entities that a live reference (R or ChildOf) points at are never despawned or
             // unmarked through the alphabet: dangling references are outside every property.
-            Op::Despawn(s) => self.alive(s).is_some() && !self.referenced(s),
-            Op::Unmark(s) => self.marked(s) && !self.referenced(s),
+            // (A parent may be despawned: its children go with it, nothing is left dangling.)
+            Op::Despawn(s) => self.alive(s).is_some() && !self.referenced(s, false),
+            Op::Unmark(s) => self.marked(s) && !self.referenced(s, true),
             Op::Mark(s) => self.alive(s).is_some() && !self.marked(s),
             Op::Ins(s, t) => self.alive(s).is_some_and(|e| !self.has_tag(e, t)),
             Op::Rm(s, t) | Op::Mut(s, t) => self.alive(s).is_some_and(|e| self.has_tag(e, t)),
@@ -860,7 +863,7 @@ impl Sim {
     }
 
     /// Does any live entity hold an `R` or `ChildOf` pointing at `slot`?
-    fn referenced(&self, slot: u8) -> bool {
+    fn referenced(&self, slot: u8, count_children: bool) -> bool {
         let Some(target) = self.alive(slot) else {
             return false;
         };
@@ -869,7 +872,8 @@ impl Sim {
                 && self.alive(s).is_some_and(|e| {
                     let r = self.server.world().entity(e);
                     r.get::<R>().is_some_and(|r| r.0 == target)
-                        || r.get::<ChildOf>().is_some_and(|c| c.parent() == target)
+                        || (count_children
+                            && r.get::<ChildOf>().is_some_and(|c| c.parent() == target))
                 })
         })
     }
